@@ -6,7 +6,7 @@ from checks.tlomig_lib import sx_parse, sx_str, unhex, repo_schemas, random_sche
 MODULES = ["TLVerif.Props.C26"]
 THEOREMS = ["TLVerif.Props.C26." + t for t in [
     "counts_and_timestamps", "constructors_listed_once", "functions_listed_once", "functions_sorted", "constructor_tag_name",
-    "types_listed_once", "type_entry_faithful", "type_name_is_xor_of_tags",
+    "types_listed_once", "type_entry_faithful", "type_param_kinds", "type_name_is_xor_of_tags",
     "tlo_roundtrip", "tlo_types_decode_back", "tlo_bytes_decode_back",
     "type_name_xor_fails_for_Type", "builtin_tag_fails_at"]]
 
